@@ -740,6 +740,8 @@ class PybindWrapper:
 
         # Reset the serializing classes list
         self._serializing_classes = []
+        # and the memory of which overloads have been documented already
+        self.xml_parser._memory = {}
 
         submodules_init = []
 
